@@ -52,6 +52,10 @@ type liv struct {
 	ia    *ssa.IndexAddr
 	base  ssa.Value // the sequence (or string) whose letter is looked up; may be nil
 	valid bool      // an If on v sends the negative case out of the function/loop
+	// covered: the validating lookup runs on every iteration of a loop whose
+	// bounds sweep every position of base (see loopCovers)
+	covered bool
+	whyNot  string
 }
 
 // seqBase walks from the letter operand of a lookup to the sequence it was read from.
@@ -167,6 +171,11 @@ func ruleLIVGuard(c *Ctx, rule string, fns []*ssa.Function) {
 				}
 			}
 		}
+		for _, l := range livs {
+			if l.valid {
+				l.covered, l.whyNot = loopCovers(l, loops)
+			}
+		}
 		keyN := map[string]int{}
 		for _, l := range livs {
 			// sinks reachable from v through arithmetic
@@ -234,9 +243,14 @@ func ruleLIVGuard(c *Ctx, rule string, fns []*ssa.Function) {
 				}
 				// (b) validated earlier in a loop over the same sequence
 				okB := false
+				partial := ""
 				if l.base != nil {
 					for _, o := range livs {
 						if o == l || !o.valid || o.base != l.base {
+							continue
+						}
+						if !o.covered {
+							partial = fmt.Sprintf("; the sign check at %s does not count: %s", c.pos(o.v.Pos()), o.whyNot)
 							continue
 						}
 						for _, lp := range loops {
@@ -284,7 +298,7 @@ func ruleLIVGuard(c *Ctx, rule string, fns []*ssa.Function) {
 					continue
 				}
 				verdict = VIOLATION
-				reason = fmt.Sprintf("the letter index of %s is used as a %s at %s before any sign check: a letter outside the alphabet gives -1 and the access panics with index out of range instead of returning an error", baseName, s.what, c.pos(s.ins.Pos()))
+				reason = fmt.Sprintf("the letter index of %s is used as a %s at %s before any sign check that covers every position: a letter outside the alphabet gives -1 and the access panics with index out of range instead of returning an error%s", baseName, s.what, c.pos(s.ins.Pos()), partial)
 				break
 			}
 			if verdict == OK {
@@ -329,6 +343,242 @@ func stripConv(v ssa.Value) ssa.Value {
 			v = x.X
 		default:
 			return v
+		}
+	}
+}
+
+// seqAccess walks from the letter operand of a lookup to the IndexAddr on
+// the sequence it was read from.
+func seqAccess(v ssa.Value) *ssa.IndexAddr {
+	for i := 0; i < 8; i++ {
+		switch x := v.(type) {
+		case *ssa.Convert:
+			v = x.X
+		case *ssa.ChangeType:
+			v = x.X
+		case *ssa.UnOp:
+			if x.Op != token.MUL {
+				return nil
+			}
+			v = x.X
+		case *ssa.FieldAddr:
+			v = x.X
+		case *ssa.IndexAddr:
+			return x
+		default:
+			return nil
+		}
+	}
+	return nil
+}
+
+// linearIn expresses v as phi + a for a loop-header phi.
+func linearIn(v ssa.Value) (*ssa.Phi, int64, bool) {
+	switch x := v.(type) {
+	case *ssa.Phi:
+		return x, 0, true
+	case *ssa.BinOp:
+		if x.Op == token.ADD || x.Op == token.SUB {
+			if k, ok := constIntVal(x.Y); ok {
+				if p, a, ok := linearIn(x.X); ok {
+					if x.Op == token.SUB {
+						k = -k
+					}
+					return p, a + k, true
+				}
+			}
+			if k, ok := constIntVal(x.X); ok && x.Op == token.ADD {
+				if p, a, ok := linearIn(x.Y); ok {
+					return p, a + k, true
+				}
+			}
+		}
+	case *ssa.Convert:
+		return linearIn(x.X)
+	}
+	return nil, 0, false
+}
+
+// lenOfBase expresses v as len(base) + b.
+func lenOfBase(v ssa.Value, base ssa.Value) (int64, bool) {
+	if lc := builtinCall(v, "len"); lc != nil && stripConv(lc.Call.Args[0]) == base {
+		return 0, true
+	}
+	if call, ok := v.(*ssa.Call); ok {
+		if f := call.Call.StaticCallee(); f != nil && f.Name() == "Len" && len(call.Call.Args) == 1 && stripConv(call.Call.Args[0]) == base {
+			return 0, true
+		}
+	}
+	if bo, ok := v.(*ssa.BinOp); ok && (bo.Op == token.ADD || bo.Op == token.SUB) {
+		if k, ok := constIntVal(bo.Y); ok {
+			if b, ok := lenOfBase(bo.X, base); ok {
+				if bo.Op == token.SUB {
+					k = -k
+				}
+				return b + k, true
+			}
+		}
+	}
+	return 0, false
+}
+
+// loopCovers: the lookup l (of base[idx]) sits in a loop that executes it on
+// every iteration and whose induction variable sweeps idx over 0..len(base)-1.
+func loopCovers(l *liv, loops []*ssaLoop) (bool, string) {
+	acc := seqAccess(l.ia.Index)
+	if acc == nil || l.base == nil {
+		return false, "the validating lookup does not index the sequence directly"
+	}
+	// every iteration of the innermost loop containing the lookup
+	var inner *ssaLoop
+	for _, lp := range loops {
+		if lp.body[l.v.Block()] && (inner == nil || len(lp.body) < len(inner.body)) {
+			inner = lp
+		}
+	}
+	if inner == nil {
+		return false, "the validating lookup is not in a loop"
+	}
+	for _, p := range inner.head.Preds {
+		if inner.body[p] && !l.v.Block().Dominates(p) {
+			return false, "the validating lookup is skipped on some iterations of its loop (it sits under another condition)"
+		}
+	}
+	phi, a, ok := linearIn(acc.Index)
+	if !ok {
+		return false, "the validated position is not a linear function of a loop counter"
+	}
+	head := phi.Block()
+	var drive *ssaLoop
+	for _, lp := range loops {
+		if lp.head == head {
+			drive = lp
+		}
+	}
+	if drive == nil {
+		return false, "the position's counter is not a loop induction variable"
+	}
+	ifi, ok := head.Instrs[len(head.Instrs)-1].(*ssa.If)
+	if !ok {
+		return false, "the driving loop has no bound test in its header"
+	}
+	bo, ok := ifi.Cond.(*ssa.BinOp)
+	if !ok || bo.Op != token.LSS || !drive.body[head.Succs[0]] {
+		return false, "the driving loop's bound test is not of the form counter < bound"
+	}
+	cphi, d, ok := linearIn(bo.X)
+	if !ok || cphi != phi {
+		return false, "the driving loop's bound test is on another variable"
+	}
+	b, ok := lenOfBase(bo.Y, l.base)
+	if !ok {
+		return false, "the driving loop is bounded by something other than the length of the validated sequence"
+	}
+	var s0 int64
+	found := false
+	for i, p := range head.Preds {
+		if !drive.body[p] {
+			if k, ok := constIntVal(phi.Edges[i]); ok {
+				s0, found = k, true
+			}
+		}
+	}
+	if !found {
+		return false, "the loop counter does not start at a constant"
+	}
+	if s0+a != 0 || b-d+a != 0 {
+		return false, fmt.Sprintf("the loop validates positions %d..len%+d, not 0..len-1", s0+a, b-d+a-1)
+	}
+	return true, ""
+}
+
+// ruleStride: the flattened scoring matrix la[r*let+q] holds a[r][q] with
+// the reference letter selecting the row and the query letter the column.
+// Every subscript built from letter indices must therefore multiply indices
+// of reference letters (first sequence parameter) by the row stride and use
+// indices of query letters (second sequence parameter) unmultiplied. With
+// an asymmetric matrix anything else scores a pair with the wrong cell.
+func ruleStride(c *Ctx, rule string, fns []*ssa.Function) {
+	alphaPath := modPath + "/alphabet"
+	type term struct {
+		liv *ssa.UnOp
+		ia  *ssa.IndexAddr
+		mul bool
+	}
+	var decode func(v ssa.Value, depth int) []term
+	decode = func(v ssa.Value, depth int) []term {
+		if depth > 6 {
+			return nil
+		}
+		switch x := v.(type) {
+		case *ssa.UnOp:
+			if x.Op == token.MUL {
+				if ia, ok := x.X.(*ssa.IndexAddr); ok && isNamed(ia.X.Type(), alphaPath, "Index") {
+					return []term{{x, ia, false}}
+				}
+			}
+		case *ssa.BinOp:
+			switch x.Op {
+			case token.ADD:
+				return append(decode(x.X, depth+1), decode(x.Y, depth+1)...)
+			case token.MUL:
+				ts := append(decode(x.X, depth+1), decode(x.Y, depth+1)...)
+				for i := range ts {
+					ts[i].mul = true
+				}
+				return ts
+			}
+		}
+		return nil
+	}
+	for _, fn := range fns {
+		if len(fn.Params) < 3 {
+			c.und(rule, funcName(fn)+"/params", fn.Pos(), "expected (receiver, reference, query, ...) parameters")
+			continue
+		}
+		ref, qry := fn.Params[1], fn.Params[2]
+		type use struct {
+			pos  token.Pos
+			role string
+			mul  bool
+		}
+		var uses []use
+		for _, b := range fn.Blocks {
+			for _, ins := range b.Instrs {
+				ia, ok := ins.(*ssa.IndexAddr)
+				if !ok || isNamed(ia.X.Type(), alphaPath, "Index") {
+					continue
+				}
+				for _, t := range decode(ia.Index, 0) {
+					base := seqBase(t.ia.Index)
+					role := ""
+					if base == ssa.Value(ref) {
+						role = "reference"
+					} else if base == ssa.Value(qry) {
+						role = "query"
+					} else {
+						continue
+					}
+					uses = append(uses, use{ia.Pos(), role, t.mul})
+				}
+			}
+		}
+		sort.Slice(uses, func(i, j int) bool { return uses[i].pos < uses[j].pos })
+		cnt := map[string]int{}
+		for _, u := range uses {
+			cnt[u.role]++
+			key := fmt.Sprintf("%s/matrix-subscript %s#%d", funcName(fn), u.role, cnt[u.role])
+			switch {
+			case u.role == "reference" && !u.mul:
+				c.bad(rule, key, u.pos, "the index of a reference letter is used as a column of the flattened matrix (not multiplied by the row stride): the cell read is a[gap][x] instead of a[x][gap] (or a[q][r] instead of a[r][q]), so with an asymmetric matrix the reported scores differ from the scores recomputed from the letters")
+			case u.role == "query" && u.mul:
+				c.bad(rule, key, u.pos, "the index of a query letter is multiplied by the row stride: it selects a row of the flattened matrix where a column is meant")
+			default:
+				c.ok(rule, key, u.pos, map[string]string{"reference": "row index: multiplied by the stride", "query": "column index: used unmultiplied"}[u.role])
+			}
+		}
+		if len(uses) == 0 {
+			c.und(rule, funcName(fn)+"/matrix-subscripts", fn.Pos(), "no matrix subscript built from letter indices found")
 		}
 	}
 }
